@@ -1636,3 +1636,8 @@ fn find_used_blobs<S>(
 
     Ok(ids)
 }
+
+/// Verification hook (C02): child module so that it can reach the private planner items.
+#[cfg(rustic_rs_rustic_core_verif)]
+#[path = "../verif_hooks/c02_planner.rs"]
+pub mod verif_c02;
